@@ -66,6 +66,13 @@ type opSpec struct {
 	Src       srcSpec `json:"src,omitempty"`
 	Overwrite bool    `json:"ow,omitempty"`
 	Name      string  `json:"name,omitempty"`
+	// Expect (near-miss family only): the outcome fixed by the property text for this step, judged on the
+	// Go side as well, so that a failing input is reported even when the Coq side cannot be built
+	// (e.g. the SemVer regular expression vanished from /repo and Generated.v cannot be produced).
+	//   "refuse:<class>"          the installation must be refused with that error class, return no metadata
+	//                             and leave the whole plugin root (tree, List, answers) as it was
+	//   "ok:<new>|<existing>"     it must succeed, reporting version <new>, and <existing> ("-" = none)
+	Expect string `json:"expect,omitempty"`
 }
 
 // contentSpec describes the bytes of one file content and what it answers.
@@ -92,6 +99,8 @@ type histSpec struct {
 type cmpSpec struct {
 	V string `json:"v"`
 	W string `json:"w"`
+	// Expect "Err": one side is a near-miss string (not a SemVer 2.0.0 version): the comparison must fail
+	Expect string `json:"expect,omitempty"`
 }
 
 type caseSpec struct {
@@ -231,6 +240,51 @@ func checkTruth(scratch string, c contentSpec) {
 		panic(fmt.Sprintf("c20: stub answer differs from its specification: %s", out))
 	}
 	truthCache[string(b)] = "ok"
+}
+
+// rawTruth: what a content PRINTS when it is run with get-plugin-metadata, established by running it
+// directly (not through notation-go) and decoding its output with encoding/json into the fields of a
+// metadata response. The Coq model of plugin.validate decides whether that is valid metadata.
+type rawAns struct {
+	Kind string // RJson RNotJson RFail
+	M    metaJSON
+}
+
+var rawCache = map[string]rawAns{}
+var rawScratch string
+
+func rawTruth(c contentSpec) rawAns {
+	if fwplugin.ContractVersion != "1.0" {
+		panic("c20: plugin.ContractVersion is " + fwplugin.ContractVersion + ", the model says 1.0")
+	}
+	b := contentBytes(c)
+	if r, ok := rawCache[string(b)]; ok {
+		return r
+	}
+	p := filepath.Join(rawScratch, "raw-probe")
+	if err := os.WriteFile(p, b, 0o700); err != nil {
+		panic(err)
+	}
+	defer os.Remove(p)
+	var r rawAns
+	out, err := exec.Command(p, "get-plugin-metadata").Output()
+	for try := 0; err != nil && strings.Contains(err.Error(), "text file busy") && try < 100; try++ {
+		time.Sleep(2 * time.Millisecond)
+		out, err = exec.Command(p, "get-plugin-metadata").Output()
+	}
+	switch {
+	case err != nil:
+		r.Kind = "RFail"
+	default:
+		var m metaJSON
+		if json.Unmarshal(out, &m) != nil {
+			r.Kind = "RNotJson"
+		} else {
+			r.Kind, r.M = "RJson", m
+		}
+	}
+	rawCache[string(b)] = r
+	return r
 }
 
 // ---------- execution of one history on the real code ----------
@@ -563,6 +617,50 @@ func (e *histEnv) runOps(scratch string, h *histSpec, o *caseObs) {
 	}
 }
 
+// judgeExpect compares one step with the outcome its opSpec.Expect fixes; "" = as expected.
+func judgeExpect(op opSpec, prev *viewObs, st *stepObs) string {
+	if op.Expect == "" {
+		return ""
+	}
+	pj, _ := json.Marshal(prev)
+	nj, _ := json.Marshal(st.View)
+	same := string(pj) == string(nj)
+	switch {
+	case strings.HasPrefix(op.Expect, "refuse:"):
+		cl := strings.TrimPrefix(op.Expect, "refuse:")
+		switch {
+		case st.Err == "":
+			return fmt.Sprintf("installation that must be refused (%s) succeeded: existing=%v new=%v", cl, derefMeta(st.Existing), derefMeta(st.New))
+		case !same:
+			return fmt.Sprintf("refused installation (%s) changed the plugin root: before %s after %s", st.Err, pj, nj)
+		case st.Existing != nil || st.New != nil:
+			return fmt.Sprintf("refused installation (%s) returned metadata", st.Err)
+		case st.Err != cl:
+			return fmt.Sprintf("installation refused with %s (%s) instead of %s", st.Err, st.ErrText, cl)
+		}
+	case strings.HasPrefix(op.Expect, "ok:"):
+		parts := strings.SplitN(strings.TrimPrefix(op.Expect, "ok:"), "|", 2)
+		switch {
+		case st.Err != "":
+			return fmt.Sprintf("installation that must succeed (version %q over %q) was refused: %s (%s)", parts[0], parts[1], st.Err, st.ErrText)
+		case st.New == nil || st.New[1] != parts[0]:
+			return fmt.Sprintf("successful installation reports new=%v instead of version %q", derefMeta(st.New), parts[0])
+		case parts[1] == "-" && st.Existing != nil:
+			return fmt.Sprintf("successful installation reports existing=%v instead of none", derefMeta(st.Existing))
+		case parts[1] != "-" && (st.Existing == nil || st.Existing[1] != parts[1]):
+			return fmt.Sprintf("successful installation reports existing=%v instead of version %q", derefMeta(st.Existing), parts[1])
+		}
+	}
+	return ""
+}
+
+func derefMeta(m *[2]string) string {
+	if m == nil {
+		return "none"
+	}
+	return fmt.Sprintf("(%q, %q)", m[0], m[1])
+}
+
 func runCmp(c *cmpSpec) caseObs {
 	r, err := verifbridge.ComparePluginVersion(c.V, c.W)
 	switch {
@@ -650,16 +748,20 @@ func cOptTok(s string) string {
 func cTable(t []contentSpec) string {
 	items := make([]string, len(t))
 	for i, c := range t {
-		v := "MFail"
-		switch c.Kind {
-		case "ok":
-			v = CApp("MOk", CStr(c.Name), CStr(c.Version))
-		case "malformed":
-			v = "MMalformed"
+		r := rawTruth(c)
+		v := r.Kind
+		if r.Kind == "RJson" {
+			v = CApp("RJson", CApp("RM", CStr(r.M.Name), CStr(r.M.Description), CStr(r.M.Version), CStr(r.M.URL),
+				CStrList(r.M.SupportedContractVersions), CStrList(r.M.Capabilities)))
+		}
+		// what the generator meant the content to be must be what it is
+		want := map[string]string{"ok": "RJson", "fail": "RFail"}[c.Kind]
+		if want != "" && want != r.Kind {
+			panic(fmt.Sprintf("c20: content %+v runs as %s", c, r.Kind))
 		}
 		items[i] = CPair(CN(int64(i+1)), v)
 	}
-	return CList(items)
+	return CApp("tbl_of", CList(items))
 }
 
 func caseTerm(id int64, c *caseSpec, o *caseObs) string {
@@ -715,6 +817,7 @@ func runC20(a *Args) error {
 		return err
 	}
 	defer os.RemoveAll(scratch)
+	rawScratch = scratch
 
 	if len(a.Extra) == 1 && a.Extra[0] == "conc" {
 		return runConcChild(a, scratch)
@@ -812,6 +915,23 @@ func runC20(a *Args) error {
 		}
 		keyb, _ := json.Marshal(c)
 		nontrivial := false
+		if c.Hist != nil && len(o.Steps) == len(c.Hist.Ops) {
+			prev := o.Init
+			for k := range o.Steps {
+				if bad := judgeExpect(c.Hist.Ops[k], prev, &o.Steps[k]); bad != "" {
+					w.Count("expect", "violated")
+					w.ImplViolation(int64(i), fmt.Sprintf("step %d of the history: %s", k+1, bad), desc, "")
+					break
+				} else if c.Hist.Ops[k].Expect != "" {
+					w.Count("expect", "met")
+				}
+				prev = &o.Steps[k].View
+			}
+		}
+		if c.Cmp != nil && c.Cmp.Expect != "" && o.Cmp != c.Cmp.Expect {
+			w.Count("expect", "violated")
+			w.ImplViolation(int64(i), fmt.Sprintf("ComparePluginVersion(%q, %q) answered %s: a string that is not a SemVer 2.0.0 version was accepted", c.Cmp.V, c.Cmp.W, o.Cmp), desc, "")
+		}
 		if c.Cmp != nil {
 			nontrivial = o.Cmp != "Err" && c.Cmp.V != c.Cmp.W
 			w.Count("kind", "compare")
